@@ -128,6 +128,7 @@ def gen_plan(seed, tier="quick"):
                  # keywords reused from the compressed form of the recording), the metadata passed explicitly from elsewhere
                  "kw_ch_file": r.random() < 0.08, "kw_meta_file": r.random() < 0.08,
                  "symlink": r.random() < 0.1,
+                 "sparse": r.random() < 0.15,        # an all-zero stretch of the recording stored as a hole (cp --sparse, rsync -S, preallocating copiers)
                  # simulated seconds that pass between the phases of the run (open -> reads -> growth -> later reads / re-open)
                  "clock_gaps": [r.choice([0.0, 0.0, 0.3, 2.0, 90.0, 7200.0]) for _ in range(4)]})       # the data file is a symbolic link into a store, its .meta a regular file beside the link
     return plan
@@ -223,8 +224,20 @@ def _run(plan, root):
             store.mkdir(parents=True)
             _os.symlink(_os.path.relpath(store / "SHA256E-s0--77aa.bin", root), binf)
             probe("data_file_is_a_symlink_into_a_store")
+        hole = None
+        if plan.get("sparse") and plan["bytes"] >= 6 * 4096:
+            a_ = 4096
+            b_ = a_ + 4096 * max(1, min(3, plan["bytes"] // 4096 - 3))
+            stream = stream[:a_] + bytes(b_ - a_) + stream[b_:]          # the recording really is zero there
+            hole = (a_, b_)
+            probe("file_with_a_hole")
         with open(binf, "wb") as f:
-            f.write(stream[: plan["bytes"]])
+            if hole:
+                f.write(stream[: hole[0]])
+                f.seek(hole[1])
+                f.write(stream[hole[1]: plan["bytes"]])
+            else:
+                f.write(stream[: plan["bytes"]])
         target = binf
         trailing = plan["bytes"] % frame
         if trailing:
@@ -291,6 +304,8 @@ def _run(plan, root):
     if plan.get("entry") == "meta":
         target = metaf
         probe("opened_through_the_meta_path")
+    if plan["seed"] % 4 == 1:
+        target = str(target)          # a plain string instead of a Path object
     dkw = {} if dt == np.dtype("int16") else {"dtype": dt.name}
     B0 = state["size"]
     sr = None
